@@ -47,6 +47,20 @@ for k in range(1,7):
 for k in (1,2):
     for fa in (False,True):
         add("d-rmw-fault-%d%s"%(k,"a" if fa else "b"),BOTH,[S("putTask"),S("putPos"),S("setState",ns=2,fk=k,fa=fa),S("updPos",ch="ch1",var="pot",fk=k,fa=fa),S("dropPos",fk=k,fa=fa),S("delPos",fk=k,fa=fa)])
+# ---- reserved non-positive collection ids (server/model/common.go: -10 = ReplicateCollectionID, the checkpoint of the operation / rpc
+#      channel, -1 = TmpCollectionID, the task-level record): each names ONE record, only 0 is the wildcard
+add("d-reserved-coll-ids",BOTH,[S("putPos",coll=1),S("putPos",coll=12),S("updPos",coll=-10,ch="ch1"),S("updPos",coll=-10,ch="ch1",var="po"),
+    S("updPos",coll=-1,var="pot"),S("getPosC",coll=-10),S("getPosC",coll=-1),S("getPosC",coll=1),S("getPos"),S("dropPos",coll=-10),S("updPos",coll=-10,ch="ch1",var="pot"),
+    S("updPos",coll=1,ch="ch1",var="pot"),S("delPos",coll=-10),S("dropPos",coll=-10),S("delPos",coll=-1),S("getPos"),S("delPos",coll=-10),S("getPosC",coll=0)])
+add("d-reserved-absent",BOTH,[S("putPos",coll=1),S("putPos",coll=12),S("getPosC",coll=-10),S("dropPos",coll=-10),S("dropPos",coll=-1),S("delPos",coll=-10),S("delPos",coll=-1),
+    S("updPos",coll=-1,ch="ch1"),S("updPos",coll=-10),S("getPos")])
+# what Create stores for a task with an rpc channel position (cdc_impl.go:586-600), then the life of the task
+add("d-reserved-create-rpc",BOTH,[S("putTask"),S("putPos",coll=-10),S("putPos",coll=1),S("putTask",task="t1"),S("putPos",task="t1",coll=-10),S("putPos",root="r1",coll=-10),
+    S("updPos",coll=-10,var="po"),S("updPos",coll=1,var="pot"),S("updPos",coll=0,ch="ch1"),S("dropPos",coll=1),S("delPos",coll=1),S("getPos"),S("delTask"),S("getPos"),S("getPos",task="t1"),S("getPos",root="r1")])
+for k in (1,2):
+    for fa in (False,True):
+        add("d-reserved-rmw-fault-%d%s"%(k,"a" if fa else "b"),BOTH,[S("putPos",coll=1),S("updPos",coll=-10,fk=k,fa=fa),S("putPos",coll=12),S("updPos",coll=-10,ch="ch1",var="pot",fk=k,fa=fa),
+            S("dropPos",coll=-10,fk=k,fa=fa),S("delPos",coll=-10,fk=k,fa=fa),S("getPos")])
 with open(os.path.join(os.path.dirname(os.path.abspath(__file__)), "..", "..", "..", "plans", "C12.jsonl"),"w") as f:
     for p in P: f.write(json.dumps(p)+"\n")
 print(len(P), "plans written")
